@@ -272,7 +272,7 @@ theorem defaultIds_replaceInPlace {l : List Rule} {r : Rule}
     by_cases hx : x.id = r.id
     · have hd := h x (List.mem_cons_self) hx
       simp only [List.map_cons, hx, if_true, List.filter_cons]
-      cases hrd : r.dflt <;> simp [hrd, ← hd, hx, iht] <;> simp_all
+      cases hrd : r.dflt <;> simp_all
     · simp only [List.map_cons, hx, if_false, List.filter_cons]
       split <;> simp [iht]
 
